@@ -18,7 +18,7 @@ structure Schema where
   method : String
   fixed : List Ty
   tail : Tail
-deriving Repr
+deriving DecidableEq, Repr
 
 /-- field types of one table descriptor in NNT / NTC (`_read_table(chunk, 0)`, 14 tokens). -/
 def tableTys : List Ty := [.I, .M, .S, .S, .I, .I, .S]
